@@ -40,6 +40,8 @@ pub struct Spec {
     /// Some(true) chunked body follows, Some(false) sized body follows, None no body
     pub body: Option<bool>,
     pub derived_framing: bool,
+    /// inherited Authorization may legitimately be absent (redirected flow where the rule allows keeping it)
+    pub auth_optional: bool,
 }
 
 /// Reference expectation for a request at redirect depth 0.
@@ -75,7 +77,7 @@ pub fn spec_from(method: &str, version: &str, target: String, uri_host: String, 
     } else {
         (None, false)
     };
-    Spec { method: method.to_string(), target, version: format!("HTTP/{}", version), added, originals, derived_host: if has_host { None } else { Some(uri_host) }, body, derived_framing }
+    Spec { method: method.to_string(), target, version: format!("HTTP/{}", version), added, originals, derived_host: if has_host { None } else { Some(uri_host) }, body, derived_framing, auth_optional: false }
 }
 
 /// Oracle (1): the complete head equals the reference.
@@ -140,6 +142,24 @@ pub fn check_head(bytes: &[u8], s: &Spec) -> Result<(), (String, String)> {
         return Err((k("original-headers"), format!("after the added headers the head must carry exactly the original headers {:?}, it has {:?}", s.originals.iter().map(|(a, b)| format!("{}: {}", a, show(b))).collect::<Vec<_>>(), rest.iter().map(|(a, b)| format!("{}: {}", a, show(b))).collect::<Vec<_>>())));
     }
     Ok(())
+}
+
+/// Like `check_head`, but where the credential rule merely *allows* the inherited Authorization
+/// (same-host policy, same host), a head without it is accepted as well: C13 states "only if".
+pub fn check_head_auth_optional(bytes: &[u8], s: &Spec, auth_optional: bool) -> Result<(), (String, String)> {
+    match check_head(bytes, s) {
+        Ok(()) => Ok(()),
+        Err(e) => {
+            if auth_optional && s.originals.iter().any(|(k, _)| k == "authorization") {
+                let mut s2 = s.clone();
+                s2.originals.retain(|(k, _)| k != "authorization");
+                if check_head(bytes, &s2).is_ok() {
+                    return Ok(());
+                }
+            }
+            Err(e)
+        }
+    }
 }
 
 struct HeadCfg {
@@ -296,7 +316,7 @@ fn build_cfg(label: String, spec: Spec, make: Box<dyn Fn() -> W + Send + Sync>) 
     let mut buf = vec![0u8; 16384];
     let n = st.write(&mut buf).map_err(|e| ("C02:valid-request-refused".to_string(), format!("{}: the validity model accepts this request but the first write failed: {:?}", label, e)))?;
     let refb = buf[..n].to_vec();
-    check_head(&refb, &spec).map_err(|(k, w)| (k, format!("{}: {}", label, w)))?;
+    check_head_auth_optional(&refb, &spec, spec.auth_optional).map_err(|(k, w)| (k, format!("{}: {}", label, w)))?;
     let cuts = cuts_of(&refb);
     Ok(Arc::new(HeadCfg { label, spec, refb, cuts, make }))
 }
@@ -439,7 +459,8 @@ fn redirected() -> Vec<(String, Spec, Box<dyn Fn() -> W + Send + Sync>)> {
                     Some(qq) => format!("{}?{}", path, qq),
                     None => path,
                 };
-                let spec = spec_from(&st.method, "1.1", target, comps.host.clone(), added.clone(), originals, false, "flow");
+                let mut spec = spec_from(&st.method, "1.1", target, comps.host.clone(), added.clone(), originals, false, "flow");
+                spec.auth_optional = st.auth_may;
                 let label = format!("redirect depth {} to {} ({}), added {:?}", st.hop, crate::refmodel::uri3986::to_string(&st.cur), st.method, add);
                 let added2 = added.clone();
                 out.push((label, spec, Box::new(move || {
